@@ -22,6 +22,7 @@ func isTPA(f *types.Func, name string) bool { return core.IsMethod(f, pRM, "TwoP
 
 func checkC05(r *core.Run) {
 	r.Explain = "Decided statically: (C05.before) in the TCC proxy's Prepare the user's try (TwoPhaseAction.Prepare -> reflective call of the prepare method) is reached inside a global transaction only through the nil-error edge of the step that reaches RMRemoting.BranchRegister; one register call site, not in a loop; (C05.param) BranchRegisterParam: BranchType=BranchTypeTCC, ResourceId from GetActionName(), Xid from tm.GetXID(ctx), ApplicationData = JSON of a map whose ActionContext entry is built from the tagged parameters of params; (C05.wiring) TCC BranchCommit reaches TwoPhaseAction.Commit only, BranchRollback reaches Rollback only; each TwoPhaseAction method calls its own method field; the parser stores the function tagged commit/rollback/prepare into the homonymous field; each phase sets its own fence phase constant; (C05.unknown) a failed resource lookup returns an error without reaching user code; (C05.once) one user-method call site per request, not in a loop; (C05.status) committed/rollbacked only on the nil-error path of the user call, a retryable failure status on its error path; (C05.ctx) Xid/BranchId/ActionName of the reconstructed action context come from the request, the action context is read under the key constant it was written under. (C05.ctx, also) no package-level variable is among the values a reference-typed field of the reconstructed action context can hold (each request gets its own map). NOT decided: JSON equivalence for arbitrary parameter structs, reflection over all struct shapes."
+	r.Explain += " Round 8: (C05.param, also) the loop that collects tagged parameters of a struct never continues past a field under a condition on its reflected value — zero-valued parameters are recorded like any other."
 	r.Trusted = []string{"go/types, go/cfg", "reflect.Value.Call invokes the function stored in the field", "encoding/json"}
 	w := r.W
 	mgr := managerFor(r, "BranchTypeTCC")
@@ -160,6 +161,7 @@ func checkC05(r *core.Run) {
 		r.Anchor("C05.param", nil, "registration step of the TCC proxy")
 	} else {
 		c05Param(r, regFn)
+		c05EveryTagged(r)
 		ids := []idiom{{Fn: core.ShortKey(regFn.Obj), Callee: "encoding/json.Marshal", Kind: "dropped", Reason: "see known finding candidates: marshal error of the action context"}}
 		_ = ids
 		errDiscipline(r, "C05.before", []*core.FuncInfo{regFn, prep}, nil)
@@ -469,6 +471,102 @@ func c05Param(r *core.Run, fn *core.FuncInfo) {
 		}
 	}
 	r.Check(tagged, "C05.param", key+"ApplicationData from tagged parameters", pos, "the action context is built from params' fields tagged with TccBusinessActionContextParameter", "the action context sent as application data is not built from the tagged fields of params")
+}
+
+// c05EveryTagged (C05.param): which fields of the parameter struct go into the action context depends on their
+// declaration — exported, tagged, tag not "-" — never on the value a field holds at prepare: in the function that
+// collects the tagged fields no `continue` / skip is under a test that looks at a reflect.Value of the parameters
+// (a zero, nil or empty value is a value the commit / rollback method is entitled to see again).
+func c05EveryTagged(r *core.Run) {
+	w := r.W
+	n := 0
+	for _, f := range w.SortedFuncs() {
+		if f.Pkg.PkgPath != pTCC || w.IsTestFile(f.Decl.Pos()) || f.Decl.Body == nil {
+			continue
+		}
+		info := f.Pkg.TypesInfo
+		reads := false
+		ast.Inspect(f.Decl.Body, func(n ast.Node) bool {
+			if e, ok := n.(ast.Expr); ok {
+				if c := core.ConstObj(info, e); c != nil && c.Name() == "TccBusinessActionContextParameter" {
+					reads = true
+				}
+			}
+			return !reads
+		})
+		// the collecting loop may use a predicate on the StructField for the tag: the loop is where the map is filled
+		fills := false
+		ast.Inspect(f.Decl.Body, func(n ast.Node) bool {
+			if as, ok := n.(*ast.AssignStmt); ok && len(as.Lhs) == 1 {
+				if ix, ok := ast.Unparen(as.Lhs[0]).(*ast.IndexExpr); ok {
+					if _, isMap := info.TypeOf(ix.X).Underlying().(*types.Map); isMap {
+						if c, ok := ast.Unparen(as.Rhs[0]).(*ast.CallExpr); ok {
+							if sel, ok := ast.Unparen(c.Fun).(*ast.SelectorExpr); ok && sel.Sel.Name == "Interface" {
+								fills = true
+							}
+						}
+					}
+				}
+			}
+			return true
+		})
+		if !fills || (!reads && !func() bool {
+			for _, cs := range w.Calls(f) {
+				if h := w.Info(cs.Static); h != nil && h.Pkg == f.Pkg && h.Decl.Body != nil {
+					hit := false
+					ast.Inspect(h.Decl.Body, func(n ast.Node) bool {
+						if e, ok := n.(ast.Expr); ok {
+							if c := core.ConstObj(h.Pkg.TypesInfo, e); c != nil && c.Name() == "TccBusinessActionContextParameter" {
+								hit = true
+							}
+						}
+						return !hit
+					})
+					if hit {
+						return true
+					}
+				}
+			}
+			return false
+		}()) {
+			continue
+		}
+		n++
+		r.Sites++
+		r.Fn(f)
+		isValue := func(e ast.Expr) bool {
+			t := info.TypeOf(e)
+			return t != nil && t.String() == "reflect.Value"
+		}
+		bad := ""
+		ast.Inspect(f.Decl.Body, func(nd ast.Node) bool {
+			ifs, ok := nd.(*ast.IfStmt)
+			if !ok {
+				return true
+			}
+			skips := false
+			for _, st := range ifs.Body.List {
+				if b, ok := st.(*ast.BranchStmt); ok && b.Tok == token.CONTINUE {
+					skips = true
+				}
+			}
+			if !skips {
+				return true
+			}
+			ast.Inspect(ifs.Cond, func(m ast.Node) bool {
+				if e, ok := m.(ast.Expr); ok && isValue(e) {
+					bad = w.Pos(ifs.Pos()) + ": " + core.ExprString(ifs.Cond)
+				}
+				return true
+			})
+			return true
+		})
+		r.Check(bad == "", "C05.param", core.ShortKey(f.Obj)+" : every tagged field is captured whatever value it holds", w.Pos(f.Decl.Pos()), "fields are skipped by declaration (unexported, untagged, tag '-') only",
+			"a tagged field is left out of the action context depending on its value ("+bad+"): a parameter that legitimately holds 0, false, \"\" or nil at prepare is missing from the context the commit / rollback method receives")
+	}
+	if n == 0 {
+		r.Undecided("C05.param", "function collecting the tagged parameter fields", "", "not found")
+	}
 }
 
 // mentionsResultOf: the value expression (in function at) mentions a variable of g that was assigned from call c, or a
